@@ -31,6 +31,12 @@ LINE_FUNCTIONS = {
 }
 
 
+# source files whose every function may be traced line by line in a run that draws one of them: windows without a call
+# in functions nobody listed (the quantifier's free-running clause, approximated one file at a time)
+LINE_FILES = ('facets.py', 'elements.py', 'identities.py', 'simple_types.py', 'groups.py', 'wildcards.py', 'attributes.py',
+              'xsd_globals.py', 'builders.py', 'caching.py', 'validation.py', 'complex_types.py', 'models.py')
+
+
 class Deadlock(Exception):
     pass
 
@@ -114,7 +120,7 @@ class _ThreadingShim:
 
 
 class Scheduler:
-    def __init__(self, rng, policy, replay=None, max_points=3_000_000, line_level=False):
+    def __init__(self, rng, policy, replay=None, max_points=3_000_000, line_level=False, line_file=None):
         import xmlschema
         import elementpath
         self.prefixes = (os.path.dirname(xmlschema.__file__) + os.sep, os.path.dirname(elementpath.__file__) + os.sep)
@@ -145,6 +151,7 @@ class Scheduler:
         self.finished_order = []
         self.notes = []
         self.line_level = line_level
+        self.line_file = line_file      # every function of this source file is traced line by line (swarm style)
         self.line_frames = 0
 
     # ---- bookkeeping -------------------------------------------------------
@@ -176,9 +183,11 @@ class Scheduler:
         if not code.co_filename.startswith(self.prefixes):
             return None
         self.yield_point(code)
-        if self.line_level and (os.path.basename(code.co_filename), code.co_name) in LINE_FUNCTIONS:
-            self.line_frames += 1
-            return self._trace_lines
+        if self.line_level:
+            base = os.path.basename(code.co_filename)
+            if (base, code.co_name) in LINE_FUNCTIONS or base == self.line_file:
+                self.line_frames += 1
+                return self._trace_lines
         return None
 
     def _trace_lines(self, frame, event, arg):
